@@ -2,6 +2,7 @@ package h
 
 import (
 	"strings"
+	"time"
 
 	z "github.com/Oudwins/zog"
 	"github.com/Oudwins/zog/conf"
@@ -37,7 +38,7 @@ type c08Dest struct {
 }
 
 func C08_Jobs() []string {
-	return []string{"struct/parse", "struct/validate", "prims/parse", "prims/validate", "slice/parse", "collect", "derived", "json", "collect-orders", "i18n"}
+	return []string{"struct/parse", "struct/validate", "prims/parse", "prims/validate", "slice/parse", "collect", "derived", "json", "collect-orders", "i18n", "time-strings", "large-results"}
 }
 func C08_Covers() []string { return []string{"ran"} }
 
@@ -169,6 +170,73 @@ func C08_Run(job string) {
 			l := z.Int().GT(1000).Parse(k, &i)
 			z.Issues.CollectList(l)
 		})
+		v.Unfreeze()
+	case "time-strings":
+		// time strings with numeric zone offsets, unix seconds and time values on shared schemas
+		st := z.Time().After(time.Unix(0, 0))
+		ss := z.Struct(z.Schema{"at": z.Time().Required()})
+		v.Freeze(st, ss)
+		v.Concurrently(3, func(k int) {
+			var t time.Time
+			in := []string{"2024-01-01T10:00:00+02:30", "2024-01-01T10:00:00-07:00", "2024-01-01T10:00:00+02:30"}[k%3]
+			e1 := st.Parse(in, &t)
+			var d struct{ At time.Time }
+			e2 := ss.Parse(map[string]any{"at": in}, &d)
+			want, _ := time.Parse(time.RFC3339, in)
+			if len(e1) != 0 || e2 != nil || !t.Equal(want) || !d.At.Equal(want) {
+				v.Flag()
+			}
+			e3 := st.Parse(int64(1700000000+k), &t)
+			if len(e3) != 0 || t.Unix() != int64(1700000000+k) {
+				v.Flag()
+			}
+		})
+		v.Unfreeze()
+	case "large-results":
+		// results with many failing paths stay what they were while later calls run
+		sch := z.Schema{}
+		in := map[string]any{}
+		keys := []string{"a", "b", "c", "d", "e", "f", "g", "h", "i", "j"}
+		for _, k := range keys {
+			sch[k] = z.Int().GT(100)
+			in[k] = 1
+		}
+		type big struct{ A, B, C, D, E, F, G, H, I, J int }
+		st := z.Struct(sch)
+		v.Freeze(st)
+		var kept [3]z.ZogIssueMap
+		input := func(k int) map[string]any { // call k: every field fails but the k-th
+			m := map[string]any{}
+			for i, key := range keys {
+				m[key] = 1
+				if i == k {
+					m[key] = 500
+				}
+			}
+			return m
+		}
+		_ = in
+		v.Concurrently(3, func(k int) {
+			var d big
+			kept[k] = st.Parse(input(k), &d)
+			if len(kept[k]) != 10 {
+				v.Flag()
+			}
+		})
+		for k := 0; k < 3; k++ {
+			if len(kept[k]) != 10 {
+				v.Flag()
+			}
+			for i, key := range keys {
+				if i == k {
+					if len(kept[k][key]) != 0 {
+						v.Flag()
+					}
+				} else if len(kept[k][key]) != 1 || kept[k][key][0].Code != "gt" || kept[k][key][0].Path != key {
+					v.Flag()
+				}
+			}
+		}
 		v.Unfreeze()
 	case "collect-orders":
 		// SanitizeMapAndCollect / CollectMap on small issue maps, every iteration order of the map
